@@ -393,8 +393,18 @@ where
             .map(NonZero::from)
             .map(u32::from);
 
+        // Exchanges that are still in flight (they are re-sent when the session is resumed) keep their slots.
+        let in_flight = if Self::is_reconnect(connection) {
+            connection
+                .remote_receive_maximum
+                .saturating_sub(connection.send_quota)
+        } else {
+            0
+        };
         connection.remote_receive_maximum = u16::from(NonZero::from(connack.receive_maximum));
-        connection.send_quota = connection.remote_receive_maximum;
+        connection.send_quota = connection
+            .remote_receive_maximum
+            .saturating_sub(in_flight);
     }
 
     async fn retransmit(
@@ -599,6 +609,7 @@ where
         if Self::is_reconnect(connection) {
             if Self::session_expired(connection) {
                 Self::reset_session(session);
+                connection.send_quota = connection.remote_receive_maximum;
             }
 
             Self::retransmit(tx, connection, session).await?;
